@@ -377,7 +377,13 @@ func init() {
 			sn.Threads, sn.Workers, sn.MaxPaths = true, 16, 5000000
 			sn.TimerBudget = 1
 			sn.Stubs = map[string]interceptFn{repoModule + "/internal/transfer.readAtWithPool": stubReadAtDirect}
-			js := []*Job{r, sn}
+			sc := hj("C02.sender-cancel", "H_C02_sender_cancel", "real sender, silent receiver, caller cancels at any observation or while everybody waits; resume on/off")
+			sc.Threads, sc.Workers, sc.MaxPaths = true, 16, 5000000
+			sc.TimerBudget = 1
+			sc.CanonicalBlock = true
+			sc.BlockedOK = true // a silent peer and a caller that never cancels: waiting is the correct behaviour
+			sc.Stubs = map[string]interceptFn{repoModule + "/internal/transfer.readAtWithPool": stubReadAtDirect}
+			js := []*Job{r, sn, sc}
 			if tier == "thorough" {
 				pr := hj("C02.receiver-preempt", "H_C02_receiver", "faulty scripted sender, schedules with one preemption of a goroutine at a select")
 				pr.Threads, pr.TimersNeverFire, pr.Workers, pr.MaxPaths = true, true, 16, 5000000
